@@ -204,7 +204,9 @@ def _cond(b, name):
         return conditional(c(), t * f(), t - t), (b.v,), b.ok()
     if name == "cond-conj-mismatch":
         a = b.R(b.v)
-        return conditional(c(), a, conj(a)) * f(), (b.v,), ("bad" if b.cplx else "ok")
+        k = b.rng.randrange(3)
+        e = [conditional(c(), a, conj(a)), conditional(c(), conj(a), a), conj(conditional(c(), a, conj(a)))][k]
+        return e * f(), (b.v,), ("bad" if b.cplx else "ok")
     if name == "cond-nested":
         return conditional(c(), conditional(c(), tv(), 0), 0) * f(), (b.v,), b.ok()
     if name == "cond-nested-affine":
@@ -296,7 +298,12 @@ def _cplx(b, name):
         n = V.ufl_shape[0]
         return outer(b.w(2), R(V))[i, j] * b.A(2, n)[i, j], (V,), only_real
     if name == "sum-conj-mismatch":
-        return R(v) * f() + conj(R(v)) * f(), (v,), only_real
+        k = rng.randrange(3)
+        if k == 0:
+            return R(v) * f() + conj(R(v)) * f(), (v,), only_real
+        if k == 1:
+            return conj(R(v)) * f() + R(v) * f(), (v,), only_real
+        return conj(R(v) * f() - conj(R(v))) * f(), (v,), only_real
     raise KeyError(name)
 
 
